@@ -411,6 +411,30 @@ def check_wiring(p, w, r):
     if fi is None:
         return
     r.analysed_functions.add(fi.key)
+    # reset() - where policy names become selectors and constant indices are validated - runs before the process first waits or touches an edge
+    beh = w.roots.get('behaviour')
+    if beh:
+        bfi = w.root_funcs['behaviour']
+        keyb = f'{bfi.key}::reset-before-first-item'
+        bad = None
+        n_ok = 0
+        for pa in beh:
+            if pa.raises:
+                continue
+            first = next((i for i, e in enumerate(pa.events) if e.kind in ('yield', 'pcall', 'spawn')), None)
+            rs = next((i for i, e in enumerate(pa.events) if e.kind == 'call' and e.name == 'reset'), None)
+            if first is None:
+                continue
+            if rs is None or rs > first:
+                bad = pa
+            else:
+                n_ok += 1
+        if bad is not None or n_ok == 0:
+            r.fail('C15.R7', keyb, 'behaviour does not run reset() before it first waits or uses an edge: policy names ("ROUND_ROBIN", "RANDOM") are never turned '
+                                   'into selectors and a constant index is never range-checked - the node fails (or routes unchecked) at its first item',
+                   src(bfi.module), bfi.node.lineno, *([bad.describe()] if bad is not None else []))
+        else:
+            r.ok('C15.R7', keyb, f'reset() precedes the first wait on {n_ok} path(s)', src(bfi.module), bfi.node.lineno)
     # reset and the private helpers it runs (the validation chain may live in a helper)
     scope, seen, work = [], set(), [fi]
     while work:
